@@ -1,8 +1,10 @@
 SPECIFICATION GenSpec
 CONSTANTS
   Reqs <- Reqs3
+  Parts <- P111
+  RegAfter <- RegFirst
   Dups = {}
+  LookupAtomic = TRUE
   FailIdx = {}
-  RegisterFirst = TRUE
 INVARIANTS NoSpurious MatchOnce NoLoss Emit
 CHECK_DEADLOCK FALSE
